@@ -130,8 +130,15 @@ def impl_run(case):
     loop = FakeLoop()
     records = []          # (collector, datamap) in arrival order
 
+    gen = {"stdout": 0, "stderr": 0}       # which stream object is current for each channel (change_stream replaces it)
+    stale = []                             # deliveries that reached a stream object that has been replaced (and closed)
+
     def collector(which):
+        g = gen[which]
+
         def _c(datamap):
+            if g != gen[which]:
+                stale.append((which, datamap.get("pid")))
             records.append((which, dict(datamap)))
         return _c
     red = Redirector(collector("stdout"), collector("stderr"), buffer=case["buffer"], loop=loop)
@@ -304,6 +311,12 @@ def impl_run(case):
                     o, s2 = close_worker(pid, with_remove=(k == "kill"))
                     outs += o
                     st.update(s2)
+            elif k == "chg":
+                # `set <watcher> stdout_stream.<key> <val>`: Watcher._reload_stream builds a new stream, hands it to
+                # Redirector.change_stream and closes the old one
+                name = CH[op[1]]
+                gen[name] += 1
+                red.change_stream(name, collector(name))
             elif k == "start":
                 red.start()
                 outs += drain_log()
@@ -313,6 +326,8 @@ def impl_run(case):
             else:
                 raise Infra("unknown op %r" % (op,))
             st["outs"] = outs
+            st["stale_stream"] = list(stale)
+            del stale[:]
             st["records"] = [[w, dm.get("name"), dm.get("pid"), list(dm.get("data", b""))] for w, dm in records[nrec:]]
             st.update(sizes())
             st["peak_live"] = peak_live
@@ -366,9 +381,9 @@ def impl_run(case):
 
 def impl_view(case, obs):
     if obs.get("final") is None:
-        return {"raised": obs.get("harness_exception"), "outs": [s["outs"] for s in obs.get("steps", [])]}
+        return {"raised": obs.get("harness_exception"), "outs": [s["outs"] for s in obs.get("steps", []) if s["op"] != "chg"]}
     f = obs["final"]
-    return {"outs": [s["outs"] for s in obs["steps"]], "pipes": f["pipes"], "active": f["active"],
+    return {"outs": [s["outs"] for s in obs["steps"] if s["op"] != "chg"], "pipes": f["pipes"], "active": f["active"],
             "running": f["running"], "fdt": f["fdt"]}
 
 
@@ -378,6 +393,8 @@ def model_line(case):
     toks = ["redir", str(case["buffer"]), str(case["pid0"])]
     for op in case["ops"]:
         k = op[0]
+        if k == "chg":
+            continue            # which stream object is current is not part of the model: deliveries are labelled by channel
         if k == "sp":
             toks += ["sp", "1" if op[1] else "0", "1" if op[2] else "0"]
         elif k == "wr":
@@ -398,7 +415,7 @@ def model_parse(case, line):
         return {"bad": True}
     outs, pipes, active, running, fdt = line.split("|")
     sp = lambda s, sep: [x for x in s.split(sep)] if s else []
-    per_op = [sp(o, ",") for o in outs.split(";")] if case["ops"] else []
+    per_op = [sp(o, ",") for o in outs.split(";")] if [o for o in case["ops"] if o[0] != "chg"] else []
     return {"outs": per_op, "pipes": sp(pipes, ","), "active": sp(active, ","),
             "running": running == "1", "fdt": fdt.rstrip("-")}
 
@@ -451,6 +468,9 @@ def oracle(case, obs):
                     fail("incomplete-at-eof", "stream %s incomplete at EOF" % (key,), j)
             if st["pre_avail"] == 0 and not st["writer_closed"] and not all(st["still_registered"]):
                 fail("unwatched-while-open", "handler removed although the writer is still open", j)
+        if st.get("stale_stream"):
+            fail("delivered-to-replaced-stream", "output of worker %s went to a %s stream object that had been replaced"
+                 % (st["stale_stream"][0][1], st["stale_stream"][0][0]), j)
         if st["op"] in ("kill", "reap"):
             if st.get("not_closed"):
                 fail("fd-leak", "read ends %s still open after process.stop()" % st["not_closed"], j)
@@ -580,6 +600,8 @@ def gen_case(rng, nops, maxw=4, disciplined=None, buffer=None):
             po, pe = (True, True) if both else rng.choice([(True, True), (True, False), (False, True), (False, False)])
             sim.spawn(po, pe)
             ops.append(["sp", int(po), int(pe)])
+        elif r < 0.15:
+            ops.append(["chg", rng.choice("oe")])          # the stream object of a channel is replaced (set …_stream.*)
         elif r < 0.45:
             pid = rng.choice(pids)
             ch = rng.choice("oe")
